@@ -70,6 +70,49 @@ def is_slice_of(x, base):
     return bytes(x) in bytes(base)
 
 
+def gen_from_pattern(pattern, rng):
+    """a random string matching `pattern` (subset of re syntax used by the contracts)"""
+    try:
+        import re._parser as sp
+    except Exception:
+        import sre_parse as sp
+
+    def gen(parsed):
+        out = []
+        for op, av in parsed:
+            o = str(op)
+            if o == "LITERAL":
+                out.append(chr(av))
+            elif o == "IN":
+                chars = []
+                neg = False
+                for op2, av2 in av:
+                    o2 = str(op2)
+                    if o2 == "LITERAL":
+                        chars.append(chr(av2))
+                    elif o2 == "RANGE":
+                        chars.extend(chr(x) for x in range(av2[0], av2[1] + 1))
+                    elif o2 == "NEGATE":
+                        neg = True
+                    elif o2 == "CATEGORY":
+                        chars.extend("0123456789")
+                if neg:
+                    chars = [chr(x) for x in range(33, 127) if chr(x) not in chars]
+                out.append(rng.choice(chars))
+            elif o == "ANY":
+                out.append(chr(rng.randint(32, 126)))
+            elif o == "SUBPATTERN":
+                out.append(gen(av[3]))
+            elif o == "BRANCH":
+                out.append(gen(rng.choice(av[1])))
+            elif o in ("MAX_REPEAT", "MIN_REPEAT"):
+                lo, hi, sub = av
+                hi = lo + 6 if str(hi) == "MAXREPEAT" else hi
+                out.append("".join(gen(sub) for _ in range(rng.randint(lo, hi))))
+        return "".join(out)
+    return gen(sp.parse(pattern))
+
+
 class ReplayPrecondition(Exception):
     pass
 
@@ -244,6 +287,9 @@ class Ctx:
     def dict_get(self, d, k):
         return d.get(k)
 
+    def lib_model_raw(self, dotted, fn):
+        pass
+
     def same_object(self, a, b):
         return a is b or (isinstance(a, (bool, int)) and a == b)
 
@@ -316,6 +362,25 @@ class Ctx:
 
     def known_finding(self, fid):
         return False        # native replays never exclude a region: the witness must fail
+
+    def regstr(self, name, pattern):
+        v = self.model.get(name)
+        if isinstance(v, str) and (self.fuzz is None or self.fuzz.random() < 0.3):
+            return v
+        import random
+        return gen_from_pattern(pattern, self.fuzz or random.Random(len(name)))
+
+    def text(self, *pieces):
+        return "".join(str(p) for p in pieces)
+
+    def new_set_of(self, items):
+        return set(items)
+
+    def new_set(self):
+        return set()
+
+    def set_add(self, s, v):
+        s.add(bytes(v))
 
     def bytearray_of(self, b):
         return bytearray(b)
